@@ -24,7 +24,7 @@ MANIFEST = {
               "type-checked program and compared with the algebraic specification (bit-level truth tables, field wiring, "
               "bijection tables). Nothing about this property depends on runtime quantities."),
     "note": "Trusted: rustc front end and const evaluation; the bit-parallel evaluator; spec/sgr.py for the colour order.",
-    "technique": "static analysis: per-bit truth tables of the bitwise bodies, match-table extraction, field-wiring rules, abstract evaluation of the Style/Effects operator impls on record values",
+    "technique": "static analysis: abstract evaluation of the Effects/Style operations to bit-vector terms decided against their laws on the all-0/all-1 assignments, colour tables as function values over their whole finite domain, case-split evaluation of the two iterators from every start index, field-wiring by evaluation on record values",
 }
 
 S = "anstyle::style::Style::"
